@@ -3,7 +3,7 @@
 Theorems (lean/CffiVerif/Props/C24.lean): utf8_roundtrip, utf8Encode_injective,
 readText_of_valid, cli_bytes_eq_api_bytes(_text), cli_exec_python_bytes_eq_api_bytes,
 stdout_same_bytes,
-invalid_utf8_is_an_error, cr_in_prelude_changes_output over the model of the
+file_output_independent_of_previous_content, invalid_utf8_is_an_error, cr_in_prelude_changes_output over the model of the
 text-I/O layers of the command line (lean/CffiVerif/Model/GenSrcIO.lean); the
 code generator is an uninterpreted parameter (the same function on both sides).
 
@@ -12,7 +12,9 @@ documented invocations, both subcommands (exec-python with the default
 variable and with --ffi-var naming a callable) and both kinds of OUTPUT, on
 random cdef / prelude / module-name inputs with non-ASCII text:
   * property oracle (no model involved): the bytes at the destination equal the
-    bytes `FFI.emit_c_code(path)` writes in-process for the same texts;
+    bytes `FFI.emit_c_code(path)` writes in-process for the same texts, whatever
+    was at the output path before the command (absent, identical, longer or
+    shorter previous generations, unrelated content, empty, CRLF);
   * model: `readText` against Python's own text-mode read of the same files,
     `deliver` (newline translation, UTF-8 encoding) against the bytes the
     command line really wrote, the UTF-8 codec model against Python's codec on
@@ -33,7 +35,8 @@ MANIFEST = {
             "emit_c_code(path) produces when the input files are valid UTF-8 without carriage returns (necessary: "
             "text-mode reading translates \\r, known finding); the strict UTF-8 decoder inverts the encoder on every "
             "surrogate-free string; with OUTPUT '-' stdout receives exactly the bytes a file receives (POSIX line "
-            "separator).  The model is tied to "
+            "separator), and the output file does not depend on what was at the output path before.  The model is "
+            "tied to "
             "the code by running the real command line (both invocations, both subcommands, file and stdout) and "
             "comparing bytes with FFI.emit_c_code run in-process, and by running Python's text layer and codec "
             "against the model.",
@@ -49,10 +52,13 @@ MANIFEST = {
 RULE = ("cdef = 1-4 declarations with //- and /* */-comments over ASCII + 2/3/4-byte UTF-8 characters; prelude = 0-4 "
         "lines (#include, comments, string literals with non-ASCII, functions), optionally without final newline; "
         "module names plain/dotted/underscored; ~20% of read-sources inputs carry \\r or \\r\\n (known-finding class); "
-        "every case is one of the 12 combinations {read-sources, exec-python, exec-python --ffi-var callable} x "
-        "{console-script entry function via python -c, python -m cffi.gen_src} x {file, '-'}, cycled so that each "
-        "combination occurs equally often; non-trivial = non-ASCII text or more than one declaration; distinct = "
-        "distinct (combination, name, cdef, prelude); plus input files that are not valid UTF-8")
+        "one round = 30 runs: each of the 6 cells {read-sources, exec-python, exec-python --ffi-var callable} x "
+        "{console-script entry function via python -c, python -m cffi.gen_src} once with OUTPUT '-' and four times "
+        "with a path whose state before the command runs through {absent, identical content, a previous generation "
+        "for a longer input, one for a shorter input, unrelated text/binary longer and shorter than the output, "
+        "empty, the output with CRLF line ends}: every cell meets a longer previous file, every state occurs three "
+        "times per round; non-trivial = non-ASCII text, more than one declaration or an existing output file; "
+        "distinct = distinct (cell, output, previous state, name, cdef, prelude); plus input files that are not UTF-8")
 ASSUMPTIONS = ["locale encoding of the process is UTF-8 (CPython >= 3.7 in the C/POSIX locale, or any UTF-8 locale)",
                "os.linesep == '\\n' for the stdout statement",
                "the code generator is a function of (module name, cdef text, prelude text)"]
@@ -67,6 +73,9 @@ SUBS = ["read-sources", "exec-python", "exec-python-callable"]
 INVS = ["script", "module"]
 OUTS = ["file", "-"]
 COMBOS = [(s, i, o) for s in SUBS for i in INVS for o in OUTS]
+# state of the output path before the command; every window of four consecutive entries (cyclically) holds a
+# state with content LONGER than the new output (indices 0, 3, 6)
+PREV_STATES = ["longer-gen", "absent", "identical", "garbage-long", "shorter-gen", "empty", "crlf", "garbage-short"]
 
 
 def _quiet(fn):
@@ -176,13 +185,23 @@ def child_env(ctx):
     return env
 
 
-def run_cli(ctx, case, d, files):
-    """files: {basename: bytes}.  Returns (returncode, stdout bytes, stderr text, file bytes or None)."""
-    os.makedirs(d, exist_ok=True)
-    for fn, data in files.items():
-        with open(os.path.join(d, fn), "wb") as f:
-            f.write(data)
+def run_cli(ctx, case, d, files, previous=None):
+    """files: {basename: bytes}; previous: bytes at the output path before the command (None = no such file).
+    Returns (returncode, stdout bytes, stderr text, file bytes or None)."""
     outp = "-" if case["out"] == "-" else os.path.join(d, "out.c")
+    try:
+        os.makedirs(d, exist_ok=True)
+        for fn, data in files.items():
+            with open(os.path.join(d, fn), "wb") as f:
+                f.write(data)
+        if outp != "-":
+            if os.path.exists(outp):
+                os.unlink(outp)
+            if previous is not None:
+                with open(outp, "wb") as f:
+                    f.write(previous)
+    except OSError as e:
+        raise InfraError("cannot prepare the input files / the previous output file: %s" % e)
     if case["sub"] == "read-sources":
         args = ["read-sources", case["name"], os.path.join(d, "in.cdef"), os.path.join(d, "in.c"), outp]
     elif case["sub"] == "exec-python":
@@ -199,6 +218,38 @@ def run_cli(ctx, case, d, files):
         with open(outp, "rb") as f:
             fb = f.read()
     return r.returncode, r.stdout, r.stderr.decode("utf-8", "replace"), fb
+
+
+def _stale(n, binary=False):
+    line = b"/* stale line of a previous run \xc3\xa9 */\n" if not binary else b"\xff\xfe stale \x00 bytes\n"
+    return (line * (n // len(line) + 1))[:n]
+
+
+def previous_content(case, ref):
+    """The bytes at the output path before the command for case['prev'] (None = absent); a function of the case
+    and of `ref` (the bytes emit_c_code produces for the case, i.e. the expected new content)."""
+    st, n = case.get("prev", "absent"), case.get("prev_n", 1)
+    if st == "absent":
+        return None
+    if st == "identical":
+        return ref
+    if st == "empty":
+        return b""
+    if st == "crlf":                       # the same source with CRLF line ends: longer, ends in "\r\n"
+        return ref.replace(b"\n", b"\r\n") if ref.endswith(b"\n") else ref + b"\r\n"
+    if st == "garbage-long":
+        return _stale(len(ref) + 1 + n, binary=(n % 4 == 0))
+    if st == "garbage-short":
+        return _stale(max(1, min(len(ref) - 1, n)), binary=(n % 2 == 0))
+    try:
+        if st == "longer-gen":             # a previous generation for more declarations and a longer prelude
+            text = gen_text((case["name"], case["cdef"] + "\nint zz_extra1(int);\ndouble zz_extra2(double);\n",
+                             case["prelude"] + "\n/* " + "removed since " * 40 + "*/\nstatic int zz_gone;\n"))
+        else:                              # "shorter-gen": a previous generation for an empty cdef and prelude
+            text = gen_text((case["name"], "", ""))
+        return text.encode("utf-8")
+    except Exception:
+        return ref + _stale(500 + n) if st == "longer-gen" else ref[:max(1, len(ref) // 2)]
 
 
 def api_bytes(ctx, case, d):
@@ -263,11 +314,18 @@ def evaluate(ctx, case, d, lines, expect, model=True):
         files = {"in.cdef": case["cdef"].encode("utf-8"), "in.c": case["prelude"].encode("utf-8")}
     else:
         files = {"build_it.py": case["script"].encode("utf-8")}
-    rc, out, err, fb = run_cli(ctx, case, d, files)
+    os.makedirs(d, exist_ok=True)
     api = api_bytes(ctx, case, d)
-    nontriv = (any(ord(c) > 127 for c in case["cdef"] + case["prelude"]) or case["cdef"].count(";") > 1)
-    key = (case["sub"], case["inv"], case["out"], case["name"], case["cdef"], case["prelude"])
-    ctx.case(key if nontriv else None, sample={k: case[k] for k in ("sub", "inv", "out", "name", "cdef", "prelude")})
+    previous = None
+    if case["out"] == "file":
+        previous = previous_content(case, api[1] if api[0] == "ok" else _stale(24000))
+        ctx.count("previous-output:" + case.get("prev", "absent"))
+    rc, out, err, fb = run_cli(ctx, case, d, files, previous)
+    nontriv = (any(ord(c) > 127 for c in case["cdef"] + case["prelude"]) or case["cdef"].count(";") > 1
+               or case.get("prev", "absent") != "absent")
+    key = (case["sub"], case["inv"], case["out"], case.get("prev"), case["name"], case["cdef"], case["prelude"])
+    ctx.case(key if nontriv else None,
+             sample={k: case.get(k) for k in ("sub", "inv", "out", "prev", "name", "cdef", "prelude")})
     ctx.count("%s/%s/%s" % (case["sub"], case["inv"], "stdout" if case["out"] == "-" else "file"))
     if case["cr"]:
         ctx.count("input-with-CR")
@@ -280,9 +338,12 @@ def evaluate(ctx, case, d, lines, expect, model=True):
             ctx.fail(case, "exit status 0 but no output file")
         elif dest != api[1]:
             pos = next((i for i, (a, b) in enumerate(zip(dest, api[1])) if a != b), min(len(dest), len(api[1])))
-            ctx.fail(case, "command line wrote %d bytes to %s, emit_c_code %d bytes; first difference at offset %d "
-                           "(%r vs %r)" % (len(dest), "stdout" if case["out"] == "-" else "the file", len(api[1]),
-                                           pos, dest[pos:pos + 30], api[1][pos:pos + 30]))
+            ctx.fail(case, "after the command %s holds %d bytes, emit_c_code writes %d bytes; first difference at "
+                           "offset %d (%r vs %r); output path before the command: %s"
+                     % ("stdout" if case["out"] == "-" else "the output file", len(dest), len(api[1]), pos,
+                        dest[pos:pos + 30], api[1][pos:pos + 30],
+                        "n/a" if case["out"] == "-" else "%s (%s bytes)" % (case.get("prev", "absent"),
+                                                                          "no" if previous is None else len(previous))))
         if case["out"] == "file" and rc == 0 and out:
             ctx.count("file-mode-stdout-not-empty")      # not part of the property, only recorded
     else:
@@ -309,8 +370,11 @@ def evaluate(ctx, case, d, lines, expect, model=True):
             ctx.disagree(case, "exit 0", "generator raises %s on the texts the model says were read" % type(e).__name__,
                          "read-sources pipeline")
             return
-        if sum(1 for l in lines if l.startswith("deliver ")) < ctx.n(24, 72):    # ~100 kB per line
-            lines.append("deliver %s 10 %s" % ("stdout" if case["out"] == "-" else "file", cps(text)))
+        if sum(1 for l in lines if l.startswith("deliver")) < ctx.n(30, 72):    # ~100 kB per line
+            if case["out"] == "-":
+                lines.append("deliver stdout 10 %s" % cps(text))
+            else:
+                lines.append("deliveronto %s 10 %s" % ("absent" if previous is None else hx(previous), cps(text)))
             expect.append((case, "ok " + hx(dest), "bytes at the destination"))
 
 
@@ -373,16 +437,28 @@ def codec_lines(ctx, n, lines, expect):
         ctx.case(None)
 
 
-def run_cases(ctx, ncases, model=True):
+def run_cases(ctx, rounds, model=True):
+    """One round = 30 command-line runs: each of the 6 (subcommand, invocation) cells four times with a path as
+    OUTPUT, the path being in four consecutive states of PREV_STATES (so every cell meets a longer previous file
+    and every state occurs three times), and once with OUTPUT '-'."""
     rng = ctx.rng
     lines, expect = [], []
-    order = list(COMBOS)
-    rng.shuffle(order)
-    for i in range(ncases):
-        combo = order[i % len(order)]
-        case = gen_case(rng, i, combo)
-        d = os.path.join(ctx.scratch, "c24_%d" % len(os.listdir(ctx.scratch)))
-        evaluate(ctx, case, d, lines, expect, model=model)
+    for _ in range(rounds):
+        cells = [(s_, i_) for s_ in SUBS for i_ in INVS]
+        rng.shuffle(cells)
+        offset = rng.randrange(len(PREV_STATES))
+        plan = []
+        for c, (sub, inv) in enumerate(cells):
+            for j in range(4):
+                plan.append((sub, inv, "file", PREV_STATES[(offset + 4 * c + j) % len(PREV_STATES)]))
+            plan.append((sub, inv, "-", None))
+        for i, (sub, inv, out, prev) in enumerate(plan):
+            case = gen_case(rng, i, (sub, inv, out))
+            if prev is not None:
+                case["prev"] = prev
+                case["prev_n"] = rng.randint(1, 4000)
+            d = os.path.join(ctx.scratch, "c24_%d" % len(os.listdir(ctx.scratch)))
+            evaluate(ctx, case, d, lines, expect, model=model)
     return lines, expect
 
 
@@ -390,7 +466,7 @@ def correspond(ctx):
     import time
     warnings.simplefilter("ignore")      # cdef() warns about globals without 'extern'; irrelevant here
     t0 = time.time()
-    lines, expect = run_cases(ctx, ctx.n(24, 240))
+    lines, expect = run_cases(ctx, ctx.n(1, 8))
     invalid_utf8_cases(ctx, ctx.n(2, 12), lines, expect)
     codec_lines(ctx, ctx.n(400, 20000), lines, expect)
     t1 = time.time()
@@ -403,7 +479,7 @@ def correspond(ctx):
 
 
 def search(ctx):
-    run_cases(ctx, ctx.n(36, 240), model=False)
+    run_cases(ctx, ctx.n(2, 8), model=False)
 
 
 def _witness_case(w):
@@ -418,8 +494,9 @@ def check_witness(ctx, finding):
     case = _witness_case(finding["witness"])
     d = os.path.join(ctx.scratch, "c24_witness_%d" % len(os.listdir(ctx.scratch)))
     files = {"in.cdef": case["cdef"].encode("utf-8"), "in.c": case["prelude"].encode("utf-8")}
-    rc, out, err, fb = run_cli(ctx, case, d, files)
+    os.makedirs(d, exist_ok=True)
     api = api_bytes(ctx, case, d)
+    rc, out, err, fb = run_cli(ctx, case, d, files)
     dest = out if case["out"] == "-" else fb
     return not (api[0] == "ok" and rc == 0 and dest == api[1])
 
@@ -434,10 +511,16 @@ def replay(ctx, obj):
         files = {"in.cdef": case["cdef"].encode("utf-8"), "in.c": case["prelude"].encode("utf-8")}
     else:
         files = {"build_it.py": case["script"].encode("utf-8")}
-    rc, out, err, fb = run_cli(ctx, case, d, files)
+    os.makedirs(d, exist_ok=True)
     api = api_bytes(ctx, case, d)
+    previous = None
+    if case["out"] == "file":
+        previous = previous_content(case, api[1] if api[0] == "ok" else _stale(24000))
+    rc, out, err, fb = run_cli(ctx, case, d, files, previous)
     dest = out if case["out"] == "-" else fb
     same = api[0] == "ok" and rc == 0 and dest == api[1]
+    print("output path before the command: %s (%s bytes)"
+          % (case.get("prev", "absent"), "no" if previous is None else len(previous)))
     print("command line: exit %d, %s bytes; emit_c_code: %s; identical: %s"
           % (rc, None if dest is None else len(dest), api[0] if api[0] == "exc" else len(api[1]), same))
     return 0 if same else 1
